@@ -12,7 +12,16 @@ build() {
 case "${1:-}" in
   replay)
     f="${2:?file}"
-    if grep -q '"engine": "ttysim"' "$f"; then build ttysim; exec ttysim/target/release/ttysim replay "$f" "${3:-}";
+    if grep -q '"engine": "ttysim"' "$f"; then
+      build ttysim; ttysim/target/release/ttysim replay "$f" "${3:-}"; rc=$?
+      if [ $rc -ge 128 ]; then
+        # n2 took the whole process down (a panic while unwinding from a panic aborts):
+        # for a never-panics / never-aborts oracle that is the violation, reproduced
+        prop=$(grep -o '"property": "[^"]*"' "$f" | head -1 | cut -d'"' -f4)
+        echo "violation: $prop process-abort the process running n2 died with signal $((rc-128)) while replaying"
+        echo "VIOLATION property=$prop replay=$f"; exit 1
+      fi
+      exit $rc;
     else build sim; exec sim/target/release/buildsim replay "$f" "${3:-}"; fi ;;
   C20)
     build ttysim; exec ttysim/target/release/ttysim check C20 "${2:-quick}" ;;
